@@ -80,6 +80,29 @@ CLAIMS = {
        "registration modes) against the model's prediction. Four known findings in the Awkward backend are listed, everything else must match.",
   note=GL + "known-finding classes mask further changes of the same class (see DESIGN.md).",
   technique="Lean 4 proofs (incl. decide over generated tables) + exhaustive/sampled correspondence of result types"),
+ "C06": dict(category="proof", design="4/C06",
+  text="Executable Lean model of the constructors' name resolution (vector.obj, the six object classes, vector.array, vector.zip/Array) and an independently written documented grammar Doc; "
+       "theorems for EVERY subset of the 19 recognised names (all 2^19, factored through the azimuthal/longitudinal/temporal groups): obj = Doc, a class accepts exactly the documented sets of its "
+       "dimension, accepted values are stored verbatim (each slot is filled by a supplied name of the right coordinate), array constructors interpret what they accept as a documented subset and carry "
+       "the rest as extra fields, never a vector from an incomplete set. Tie: exhaustive correspondence with the real constructors over all subsets of up to 5 names (thorough; quick: sizes <= 3 + sample), "
+       "distinct values revealing which name filled which slot; value kinds (bool/str/None rejected).",
+  note=GL + "three constructor defects found this way were repaired (572f8c1, 0f97320, cc3adc8); remaining documented discrepancies of the array constructors are listed in DESIGN.md 9.4.",
+  technique="Lean 4 proofs (factored decide over all name sets) about a hand-written executable model + exhaustive correspondence"),
+ "C07": dict(category="proof", design="4/C07",
+  text="Lean model numbaCall of what COMPILED code returns (typing-time decisions of _numba_object.py: group by minimum dimension, signature, table lookup in the same generated tables, result class) "
+       "next to the interpreter model call; theorems: for every supported property/method, whenever the interpreter succeeds and flavors agree the compiled result is identical (module, key, argument order, "
+       "class, coordinates), plus the exact characterisation of every difference (mixed flavor, boosts take self's class, mixed dimensions, unsupported names, keyword arguments, order-string case). "
+       "Tie: numba's typing context asked for ~650 result types per quick run (19 960 in the agent's validation, 0 mismatches) and parallel compile-and-run probes (values and classes vs the interpreter).",
+  note=GL + "the Numba compiler (LLVM code generation) is not modelled; three known findings (mixed flavor, boost flavor, order case).",
+  technique="Lean 4 proofs relating two hand-written executable models + numba typing-context / compile-and-run correspondence"),
+ "C08": dict(category="proof", design="4/C08",
+  text="Third generated copy Gen/Sym of all 2433 compute functions as vector._lib.SympyLib evaluates them (probed each run: nan_to_num=id, maximum/minimum=first symbolic argument, copysign(a,b)=a, "
+       "isclose=Eq). Kernel-checked: VS.f = VR.f unconditionally for the 1222 functions free of those primitives (generated with the model) and 42 all-keys eval theorems; for ALL 1211 remaining functions "
+       "VS.f = VR.f under the regular-domain hypothesis that makes the dropped clamp/sign inactive (0 <= tau, not spacelike, 0 <= gamma, clamp range), with all-keys theorems for 36 modules; symbolic isclose = equal. "
+       "Tie: translator + SympyLib probe; the SymPy backend's expressions .subs().evalf(40) vs the 50-digit object backend on the regular domain.",
+  note=TB + "SymPy's own simplifier and constructors are trusted (sampled); both copies model nan_to_num as the identity (singular inputs excluded).",
+  technique="Lean 4 proofs over two translator-generated copies (NumPy semantics vs SympyLib semantics) + evalf correspondence"),
+
  "C09": dict(category="proof", design="4/C09",
   text="64 Lean theorems on the generated boost functions for all reals with |beta|<1: Minkowski product preserved, inverse by the opposite boost, velocity addition along an axis, "
        "boost_p4 = boost_beta3 o to_beta3, boostX/Y/Z(beta) = boost_beta3 along the axis = boostX/Y/Z(gamma) for the matching gamma, boostCM_of_p4(v,v) = (0,0,0,tau), tau preserved; "
